@@ -346,6 +346,7 @@ func (k Keeper) convertCoinNativeERC20(
 	erc20 := erc20contracts.ERC20MinterBurnerDecimalsContract.ABI
 	contract := pair.GetERC20Contract()
 	balanceToken := k.balanceOf(ctx, erc20, contract, receiver)
+	balanceEscrow := k.balanceOf(ctx, erc20, contract, types.ModuleAddress)
 
 	// Escrow Coins on module account
 	if err := k.bankKeeper.SendCoinsFromAccountToModule(ctx, sender, types.ModuleName, coins); err != nil {
@@ -378,6 +379,18 @@ func (k Keeper) convertCoinNativeERC20(
 			types.ErrBalanceInvariance,
 			"invalid token balance - expected: %v, actual: %v",
 			exp, balanceTokenAfter,
+		)
+	}
+
+	// Check that the escrow decreased by exactly the converted amount
+	balanceEscrowAfter := k.balanceOf(ctx, erc20, contract, types.ModuleAddress)
+	expEscrow := big.NewInt(0).Sub(balanceEscrow, tokens)
+
+	if r := balanceEscrowAfter.Cmp(expEscrow); r != 0 {
+		return nil, sdkerrors.Wrapf(
+			types.ErrBalanceInvariance,
+			"invalid escrow balance - expected: %v, actual: %v",
+			expEscrow, balanceEscrowAfter,
 		)
 	}
 
